@@ -383,3 +383,47 @@ def reorder_raises(new_order):
     except ValueError as e:
         return "ValueError"
     return None
+
+
+# ---- native cross-check of the functions proved for any length (CPython's sorted/list.sort
+# against the consequences of the axiom the proof assumes)
+
+
+def gen_sort_case(rng, i=0):
+    n = [0, 1, 2, 5, 17, 64][i % 6] if i < 12 else rng.randint(0, 40)
+    names = [f"g{k}" for k in range(n)]
+    gids = list(range(n))
+    rng.shuffle(gids)
+    # equal records on purpose (a pairing kept only "up to equal records" must still pass)
+    entries = [rng.randint(0, 3) for _ in range(n)]
+    return {"names": names, "gids": gids, "entries": entries, "paired": i % 4 != 3}
+
+
+def run_sort_by_gid(names, gids, entries, paired):
+    from nanoemoji.reorder_glyphs import _sort_by_gid, ReorderList
+
+    gid = dict(zip(names, gids))
+    glyphs = list(names)
+    par = list(entries) if paired else None
+    _sort_by_gid(gid.__getitem__, glyphs, par)
+
+    class _R:
+        def __init__(self, g, e):
+            self.SecondGlyph, self.payload = g, e
+
+    class _V:
+        pass
+
+    class _F:
+        getGlyphID = staticmethod(gid.__getitem__)
+
+    v = _V()
+    v.PairValueRecord = [_R(g, e) for g, e in zip(names, entries)]
+    ReorderList("PairValueRecord", key="SecondGlyph").apply(_F, v)
+    return {
+        "glyphs": glyphs,
+        "parallel": par,
+        "gids": [gid[g] for g in glyphs],
+        "old_pairs": sorted(zip(names, entries)),
+        "records": [(r.SecondGlyph, r.payload) for r in v.PairValueRecord],
+    }
